@@ -486,6 +486,8 @@ func main() {
 		defer drv.Close()
 	}
 
+	tracerLeafAbs = probeTracer()
+	res.Note("trie2 tracer records the absolute path of a deleted last-level leaf: %v (selects the Lean model variant)", tracerLeafAbs)
 	if f.Replay != "" {
 		runReplay(f, res, drv)
 		lib.Finish(f, res)
